@@ -121,6 +121,47 @@ theorem C02_fixpoint_plan (c : Counts) (N ms mu mc : Int) (paused frozen : Bool)
   unfold rollingPlan
   simp [hc, hu, ha]
 
+/-! ### Progress of the real plan -/
+
+/-- a positive maxUnavailable (number or percentage) resolves to a budget of at least one pod on any
+non-empty set of targeted nodes: percentages are rounded UP. -/
+theorem C02_budget_positive (x : Option IntOrStr) (N mu : Int) (hx : Spec.C02.positiveBudget x = true)
+    (hN : 1 ≤ N) (h : resolveIntOrPercent x N = some mu) : 1 ≤ mu := by
+  unfold Spec.C02.positiveBudget at hx
+  unfold resolveIntOrPercent at h
+  cases x with
+  | none => simp at hx
+  | some v =>
+    simp only [Bool.and_eq_true, Bool.or_eq_true, decide_eq_true_eq] at hx
+    simp only [] at h
+    split at h
+    · simp only [Option.some.injEq] at h; omega
+    · split at h
+      · simp only [Option.some.injEq] at h
+        unfold ceilDiv100 at h
+        have : 1 ≤ v.val * N := by
+          have := Int.mul_le_mul hx.2 hN (by omega) (by omega)
+          omega
+        omega
+      · simp at h
+
+/-- **Update progress of the plan.**  In the cooperative update situation, a sync that is neither
+paused nor frozen and whose maxUnavailable resolves to `mu ≥ 1` deletes `min mu o ≥ 1` outdated pods. -/
+theorem C02_progress_plan (c : Counts) (ms mu mc : Int)
+    (hc : Spec.C02.coopUpdate c = true) (hmu : 1 ≤ mu) (hms : 0 ≤ ms) :
+    (rollingPlan c c.desired ms mu mc false false).2.length = min mu c.oldAvailable
+    ∧ 1 ≤ (rollingPlan c c.desired ms mu mc false false).2.length := by
+  unfold Spec.C02.coopUpdate at hc
+  simp only [Bool.and_eq_true, beq_iff_eq, List.isEmpty_iff, Bool.not_eq_true'] at hc
+  obtain ⟨⟨⟨⟨⟨⟨⟨⟨⟨h1, h2⟩, h3⟩, h4⟩, h5⟩, h6⟩, h7⟩, h8⟩, h9⟩, h10⟩ := hc
+  have ho : 1 ≤ c.toDeleteAvail.length := by
+    cases hl : c.toDeleteAvail with
+    | nil => simp [hl] at h10
+    | cons a l => simp
+  unfold rollingPlan calcLimits
+  simp only [h2, List.nil_append, Bool.not_false, Bool.and_self, if_true, List.length_take]
+  omega
+
 /-- every entry classified up to date ⇒ the counting loop yields no candidate at all. -/
 theorem countAll_all_uptodate (tg : String) (wall : Time) (es : List Entry)
     (h : ∀ e ∈ es, ∃ a r, classify tg wall e = .upToDate a r) :
